@@ -28,7 +28,7 @@ PROPS = {
         "level_note": "Trusted: the brute-force enumerator and the raw(n) dataflow definition; hook events for 'which arm'.",
         "rule": ("4 queries per generated DP world x synthetic flag x strategy x entry point; evaluation = one tree configuration; distinct non-trivial = distinct configurations."),
         "assumptions": COMMON_ASSUME,
-        "quick": {"shards": 16, "cases": 700, "watchdog_s": 1500, "require": {"evaluations": 20000, "derivations_checked": 40000, "applied_derivations_observed": 8000, "queries_with_channels_cut": 4000, "variant:0": 4000}},
+        "quick": {"shards": 16, "cases": 900, "watchdog_s": 1500, "require": {"evaluations": 20000, "derivations_checked": 40000, "applied_derivations_observed": 8000, "applied_derivations_label_flow_checked": 8000, "queries_with_channels_cut": 3500, "variant:0": 3500}},
         "thorough": {"shards": 16, "cases": 12000, "watchdog_s": 14400, "require": {"evaluations": 500000}},
     },
     "C03": {
